@@ -11,6 +11,7 @@ import CamVerif.Proofs.C03Fuel
 import CamVerif.Proofs.C03Spec
 import CamVerif.Proofs.C03SpecW
 import CamVerif.Proofs.C03SpecMore
+import CamVerif.Proofs.C03SpecFormula
 import CamVerif.Proofs.C03Total
 import CamVerif.Proofs.C03Acyclic
 namespace CamVerif.C03
@@ -933,11 +934,11 @@ theorem refines_spec_partial (cx : Ctx F E) (hnf : NoFormulaNodes cx) (fuel : Na
     (∀ a, (exec cx (fuel + 1) (.regAddress n) st).1 = .ok (.int a) ↔ specRegAddress cx fuel n st.s = some a) ∧
     (∀ l, (exec cx (fuel + 1) (.regLength n) st).1 = .ok (.int l) ↔ specRegLength cx fuel n st.s = some l) := by
   have ihB := valIH cx hnf fuel
-  have ihA := specIH cx fuel
+  have ihA := specIH cx hnf fuel
   refine ⟨fun v => ?_, fun v => ?_, fun v => ?_, fun v => ?_, fun b => ?_, fun e => ?_, fun a => ?_, fun l => ?_⟩ <;>
     simp only [exec, top]
-  · exact read_iff st v (fun a b h => by injection h) (fun a h => intValueF_spec ihB hnf h) (fun a h => intValueF_exec ihA h)
-  · exact read_iff st v (fun a b h => by injection h) (fun a h => floatValueF_spec ihB hnf h) (fun a h => floatValueF_exec ihA h)
+  · exact read_iff st v (fun a b h => by injection h) (fun a h => intValueF_spec ihB (hnf _) h) (fun a h => intValueF_exec ihA (hnf _) h)
+  · exact read_iff st v (fun a b h => by injection h) (fun a h => floatValueF_spec ihB (hnf _) h) (fun a h => floatValueF_exec ihA (hnf _) h)
   · exact read_iff st v (fun a b h => by injection h) (fun a h => strValueF_spec ihB h) (fun a h => strValueF_exec ihA h)
   · exact read_iff st v (fun a b h => by injection h) (fun a h => enumCurrentValueF_spec ihB h) (fun a h => enumCurrentValueF_exec ihA h)
   · exact read_iff st b (fun a b h => by injection h) (fun a h => (boolValueF_iff cx hnf fuel n st.s a).mp h)
@@ -986,20 +987,15 @@ theorem refines_spec_partial_writes (cx : Ctx F E) (hnf : NoFormulaNodes cx) (fu
               (exec cx (fuel + 1) (.regWrite n data) st).2.s = s') ↔
         specRegWrite cx fuel n data st.s = some s') := by
   have ihB := valIH cx hnf fuel
-  have ihA := specIH cx fuel
+  have ihA := specIH cx hnf fuel
   have ihS := setIH cx hnf fuel
   refine ⟨fun v => ?_, fun v => ?_, fun v => ?_, fun v => ?_, fun b => ?_, ?_, fun data => ?_⟩ <;>
     simp only [exec, top, runM_eff, setSem]
-  · exact intSetF_iff hnf ihB ihA ihS
-  · exact floatSetF_iff hnf ihB ihA ihS
+  · exact intSetF_iff (hnf _) ihB ihA ihS
+  · exact floatSetF_iff (hnf _) ihB ihA ihS
   · exact strSetF_iff ihB ihA ihS
   · exact enumSetByValueF_iff ihS
-  · unfold boolSetF specBoolSet
-    cases hg : cx.graph n with
-    | none => simp
-    | some nd =>
-      cases nd <;> simp only <;> try (simp; done)
-      exact sonSetInt_iff ihS
+  · exact boolSetF_iffI ihS n b st.s s'
   · unfold cmdExecuteF specCmdExecute
     cases hg : cx.graph n with
     | none => simp
@@ -1084,19 +1080,185 @@ theorem refines_spec_partial_regread (cx : Ctx F E) (hnf : NoFormulaNodes cx) (f
   exact read_iff st bs (fun a b h => by injection h) (fun a h => (regReadF_iff cx hnf fuel n bufLen st.s a).mp h)
     (fun a h => (regReadF_iff cx hnf fuel n bufLen st.s a).mpr h)
 
+/-- **refines_spec_formula_reads**: for EVERY graph — swiss knives and converters included,
+no `NoFormulaNodes` hypothesis — a value read succeeds with `v` exactly when the reference
+semantics assigns `v`.  For an (Int)SwissKnife that is its formula evaluated (by the
+evaluator parameter) in the environment variables < constants < expressions, every
+`<pVariable>` bound to what its accessor names (`X` / `X.Value` the current value — integer,
+float, boolean as 1 / 0, enumeration as the NumericValue of its current entry —, `X.Min` /
+`X.Max` / `X.Inc` the current limits, `X.Enum.<entry>` that entry's declared value); for an
+(Int)Converter it is FormulaFrom in the same environment on top of `TO` = the current value
+of pValue.  The same for the other read interfaces a formula variable can draw on: boolean
+value, current entry, and the limits (an IntSwissKnife's minimum and maximum are its
+value, converters have the type's range, neither has an increment). -/
+theorem refines_spec_formula_reads (cx : Ctx F E) (fuel : Nat) (n : NodeId) (st : St F) :
+    (∀ v, (exec cx (fuel + 1) (.intValue n) st).1 = .ok (.int v) ↔ (valSem cx (fuel + 1)).int n st.s = some v) ∧
+    (∀ v, (exec cx (fuel + 1) (.floatValue n) st).1 = .ok (.float v) ↔ (valSem cx (fuel + 1)).float n st.s = some v) ∧
+    (∀ v, (exec cx (fuel + 1) (.strValue n) st).1 = .ok (.str v) ↔ (valSem cx (fuel + 1)).str n st.s = some v) ∧
+    (∀ v, (exec cx (fuel + 1) (.enumCurrentValue n) st).1 = .ok (.int v) ↔ (valSem cx (fuel + 1)).enum n st.s = some v) ∧
+    (∀ b, (exec cx (fuel + 1) (.boolValue n) st).1 = .ok (.bool b) ↔ (valSem cx (fuel + 1)).bool n st.s = some b) ∧
+    (∀ e, (exec cx (fuel + 1) (.enumCurrentEntry n) st).1 = .ok (.node e) ↔ (valSem cx (fuel + 1)).entry n st.s = some e) ∧
+    (∀ v, (exec cx (fuel + 1) (.intMin n) st).1 = .ok (.int v) ↔ (valSem cx (fuel + 1)).intMin n st.s = some v) ∧
+    (∀ v, (exec cx (fuel + 1) (.intMax n) st).1 = .ok (.int v) ↔ (valSem cx (fuel + 1)).intMax n st.s = some v) ∧
+    (∀ v, (exec cx (fuel + 1) (.intInc n) st).1 = .ok (.optInt v) ↔ (valSem cx (fuel + 1)).intInc n st.s = some v) ∧
+    (∀ v, (exec cx (fuel + 1) (.floatMin n) st).1 = .ok (.float v) ↔ (valSem cx (fuel + 1)).floatMin n st.s = some v) ∧
+    (∀ v, (exec cx (fuel + 1) (.floatMax n) st).1 = .ok (.float v) ↔ (valSem cx (fuel + 1)).floatMax n st.s = some v) ∧
+    (∀ v, (exec cx (fuel + 1) (.floatInc n) st).1 = .ok (.optFloat v) ↔ (valSem cx (fuel + 1)).floatInc n st.s = some v) := by
+  have ih := fullIH cx (fuel + 1)
+  have key : ∀ {α : Type} (m : R F α) (f : α → Val F) (o : Option α) (v : α),
+      (∀ a b, f a = f b → a = b) → (∀ a, R.val m st.s = .ok a ↔ o = some a) →
+      ((runR m f st).1 = .ok (f v) ↔ o = some v) :=
+    fun m f o v hinj h => read_iff st v hinj (fun a ha => (h a).mp ha) (fun a ha => (h a).mpr ha)
+  refine ⟨fun v => ?_, fun v => ?_, fun v => ?_, fun v => ?_, fun v => ?_, fun v => ?_, fun v => ?_,
+    fun v => ?_, fun v => ?_, fun v => ?_, fun v => ?_, fun v => ?_⟩ <;> simp only [exec, top]
+  · exact key _ _ _ v (fun a b h => by injection h) (fun a => ⟨ih.val.int n st.s a, ih.spec.int n st.s a⟩)
+  · exact key _ _ _ v (fun a b h => by injection h) (fun a => ⟨ih.val.float n st.s a, ih.spec.float n st.s a⟩)
+  · exact key _ _ _ v (fun a b h => by injection h) (fun a => ⟨ih.val.str n st.s a, ih.spec.str n st.s a⟩)
+  · exact key _ _ _ v (fun a b h => by injection h) (fun a => ⟨ih.val.enum n st.s a, ih.spec.enum n st.s a⟩)
+  · exact key _ _ _ v (fun a b h => by injection h) (ih.x.bool n st.s)
+  · exact key _ _ _ v (fun a b h => by injection h) (ih.x.entry n st.s)
+  · exact key _ _ _ v (fun a b h => by injection h) (ih.x.intMin n st.s)
+  · exact key _ _ _ v (fun a b h => by injection h) (ih.x.intMax n st.s)
+  · exact key _ _ _ v (fun a b h => by injection h) (ih.x.intInc n st.s)
+  · exact key _ _ _ v (fun a b h => by injection h) (ih.x.floatMin n st.s)
+  · exact key _ _ _ v (fun a b h => by injection h) (ih.x.floatMax n st.s)
+  · exact key _ _ _ v (fun a b h => by injection h) (ih.x.floatInc n st.s)
+
+/-- **refines_spec_formula_writes**: for EVERY graph — converters included — a write
+(integer / float / string `set_value`, `set_entry_by_value`, boolean `set_value`) succeeds and
+leaves value store and device image `s'` exactly when the reference write semantics maps the
+state to `s'`.  For an (Int)Converter that is: FormulaTo evaluated in the environment `FROM`
+(= the written value) < variables < constants < expressions, with the variables read before
+anything is written, and the result written to pValue converted to the target's kind — an
+integer target its integer conversion, a float target its float conversion, a boolean target
+`true` exactly when the result is non-zero, an enumeration target the entry with that value
+(swiss knives are not writable: no reference write, and the interpreter refuses). -/
+theorem refines_spec_formula_writes (cx : Ctx F E) (fuel : Nat) (n : NodeId) (st : St F) (s' : S F) :
+    (∀ v, ((exec cx (fuel + 1) (.intSet n v) st).1 = .ok .unit ∧ (exec cx (fuel + 1) (.intSet n v) st).2.s = s') ↔
+        (setSem cx (fuel + 1)).int n v st.s = some s') ∧
+    (∀ v, ((exec cx (fuel + 1) (.floatSet n v) st).1 = .ok .unit ∧ (exec cx (fuel + 1) (.floatSet n v) st).2.s = s') ↔
+        (setSem cx (fuel + 1)).float n v st.s = some s') ∧
+    (∀ v, ((exec cx (fuel + 1) (.strSet n v) st).1 = .ok .unit ∧ (exec cx (fuel + 1) (.strSet n v) st).2.s = s') ↔
+        (setSem cx (fuel + 1)).str n v st.s = some s') ∧
+    (∀ v, ((exec cx (fuel + 1) (.enumSetByValue n v) st).1 = .ok .unit ∧
+           (exec cx (fuel + 1) (.enumSetByValue n v) st).2.s = s') ↔
+        (setSem cx (fuel + 1)).enum n v st.s = some s') ∧
+    (∀ b, ((exec cx (fuel + 1) (.boolSet n b) st).1 = .ok .unit ∧ (exec cx (fuel + 1) (.boolSet n b) st).2.s = s') ↔
+        (setSem cx (fuel + 1)).bool n b st.s = some s') := by
+  have ihS := fullSetIH cx (fuel + 1)
+  refine ⟨fun v => ?_, fun v => ?_, fun v => ?_, fun v => ?_, fun b => ?_⟩ <;> simp only [exec, top, runM_eff]
+  · exact ihS.int n v st.s s'
+  · exact ihS.float n v st.s s'
+  · exact ihS.str n v st.s s'
+  · exact ihS.enum n v st.s s'
+  · exact ihS.bool n b st.s s'
+
+/-- **refines_spec_formula_rest**: the remaining interfaces, for EVERY graph (formula nodes
+may occur anywhere among the referenced nodes): register address, length and raw
+`IRegister::read`, string `max_length`, `set_min` / `set_max`, `set_entry_by_symbolic`, command
+`execute` and raw register `write` succeed — with that answer, respectively with final value
+store and device image `s'` — exactly when the reference definitions say so.  Together with
+`refines_spec_formula_reads` / `_writes` this is everything `refines_spec_partial` / `_writes` /
+`_limits` / `_regread` state, without their `NoFormulaNodes` hypothesis. -/
+theorem refines_spec_formula_rest (cx : Ctx F E) (fuel : Nat) (n : NodeId) (st : St F) (s' : S F) :
+    (∀ a, (exec cx (fuel + 1) (.regAddress n) st).1 = .ok (.int a) ↔ specRegAddress cx fuel n st.s = some a) ∧
+    (∀ l, (exec cx (fuel + 1) (.regLength n) st).1 = .ok (.int l) ↔ specRegLength cx fuel n st.s = some l) ∧
+    (∀ bufLen bs, (exec cx (fuel + 1) (.regRead n bufLen) st).1 = .ok (.bytes bs) ↔
+        specRegRead cx fuel n bufLen st.s = some bs) ∧
+    (∀ v, (exec cx (fuel + 1) (.strMaxLength n) st).1 = .ok (.int v) ↔
+        specStrMaxLength cx (fuel + 1) n st.s = some v) ∧
+    (∀ v, ((exec cx (fuel + 1) (.intSetMin n v) st).1 = .ok .unit ∧ (exec cx (fuel + 1) (.intSetMin n v) st).2.s = s') ↔
+        specIntSetMin cx fuel n v st.s = some s') ∧
+    (∀ v, ((exec cx (fuel + 1) (.intSetMax n v) st).1 = .ok .unit ∧ (exec cx (fuel + 1) (.intSetMax n v) st).2.s = s') ↔
+        specIntSetMax cx fuel n v st.s = some s') ∧
+    (∀ v, ((exec cx (fuel + 1) (.floatSetMin n v) st).1 = .ok .unit ∧ (exec cx (fuel + 1) (.floatSetMin n v) st).2.s = s') ↔
+        specFloatSetMin cx fuel n v st.s = some s') ∧
+    (∀ v, ((exec cx (fuel + 1) (.floatSetMax n v) st).1 = .ok .unit ∧ (exec cx (fuel + 1) (.floatSetMax n v) st).2.s = s') ↔
+        specFloatSetMax cx fuel n v st.s = some s') ∧
+    (∀ name, ((exec cx (fuel + 1) (.enumSetByName n name) st).1 = .ok .unit ∧
+              (exec cx (fuel + 1) (.enumSetByName n name) st).2.s = s') ↔
+        specEnumSetByName cx fuel n name st.s = some s') ∧
+    (((exec cx (fuel + 1) (.cmdExecute n) st).1 = .ok .unit ∧ (exec cx (fuel + 1) (.cmdExecute n) st).2.s = s') ↔
+        specCmdExecute cx fuel n st.s = some s') ∧
+    (∀ data, ((exec cx (fuel + 1) (.regWrite n data) st).1 = .ok .unit ∧
+              (exec cx (fuel + 1) (.regWrite n data) st).2.s = s') ↔
+        specRegWrite cx fuel n data st.s = some s') := by
+  have hs := IHs.full cx
+  have ihB := hs.val fuel
+  have ihA := hs.spec fuel
+  have ihS := hs.set fuel
+  refine ⟨fun a => ?_, fun l => ?_, fun bufLen bs => ?_, fun v => ?_, fun v => ?_, fun v => ?_, fun v => ?_,
+    fun v => ?_, fun name => ?_, ?_, fun data => ?_⟩ <;> simp only [exec, top, runM_eff]
+  · exact read_iff st a (fun a b h => by injection h) (fun x h => (regAddressF_iffI ihB ihA n st.s x).mp h)
+      (fun x h => (regAddressF_iffI ihB ihA n st.s x).mpr h)
+  · exact read_iff st l (fun a b h => by injection h) (fun x h => (regLengthF_iffI ihB ihA n st.s x).mp h)
+      (fun x h => (regLengthF_iffI ihB ihA n st.s x).mpr h)
+  · exact read_iff st bs (fun a b h => by injection h) (fun a h => (regReadF_iffH cx hs fuel n bufLen st.s a).mp h)
+      (fun a h => (regReadF_iffH cx hs fuel n bufLen st.s a).mpr h)
+  · have key := strMaxLength_iffH cx hs (fuel + 1) n st.s
+    simp only [execRec, step] at key
+    exact read_iff st v (fun a b h => by injection h) (fun a h => (key a).mp h) (fun a h => (key a).mpr h)
+  · exact intSetMinF_iffH cx hs fuel n v st.s s'
+  · exact intSetMaxF_iffH cx hs fuel n v st.s s'
+  · exact floatSetMinF_iffH cx hs fuel n v st.s s'
+  · exact floatSetMaxF_iffH cx hs fuel n v st.s s'
+  · exact enumSetByNameF_iffH cx hs fuel n name st.s s'
+  · unfold cmdExecuteF specCmdExecute
+    cases hg : cx.graph n with
+    | none => simp
+    | some nd =>
+      cases nd <;> simp only <;> try (simp; done)
+      rename_i b value cmdValue
+      simp only [commandExecute, M.eff_bind_ok_iff, M.eff_ofR, Prod.mk.injEq, Option.bind_eq_some_iff]
+      constructor
+      · rintro ⟨v, s1, ⟨hv, rfl⟩, h⟩
+        exact ⟨v, slotOrNodeIntValue_spec ihB hv, (sonSetInt_iff ihS).mp h⟩
+      · rintro ⟨v, hv, h⟩
+        exact ⟨v, st.s, ⟨sonInt_exec ihA hv, rfl⟩, (sonSetInt_iff ihS).mpr h⟩
+  · unfold regWriteF specRegWrite
+    cases hg : cx.graph n with
+    | none => simp
+    | some nd =>
+      simp only
+      cases hr : nd.regBase? with
+      | none => simp
+      | some rb => exact writeAndCache_iff ihB ihA
+
+/-- what `refines_spec_formula_reads` says for an IntSwissKnife, spelled out: the value is
+`v` iff there are variable bindings `env1` (one per `<pVariable>`, F2 / F3) such that the
+formula evaluates — in expressions ++ constants ++ variables, newest first — to a result
+whose integer conversion is `v` -/
+theorem swissknife_read_spec (cx : Ctx F E) (fuel : Nat) (n : NodeId) (b : Base) (fm : Formulaic F E)
+    (formula : E) (st : St F) (hg : cx.graph n = some (.intSwissKnife b fm formula)) (v : Int) :
+    (exec cx (fuel + 1) (.intValue n) st).1 = .ok (.int v) ↔
+      ∃ env1 r, specVars cx (valSem cx fuel) fm.vars [] st.s = some env1 ∧
+        cx.ops.eval cx.profile
+          (Env.lookup (fm.exprs.reverse ++ ((fm.consts.map fun c => (c.1, numLitExpr cx c.2)).reverse ++ env1)))
+          formula = .ok r ∧
+        EvalResult.asInteger cx r = v := by
+  rw [(refines_spec_formula_reads cx fuel n st).1 v]
+  simp only [valSem, valStep, hg, knifeResult, specEnv, evalFormula, Option.map_eq_some_iff,
+    Option.bind_eq_some_iff]
+  constructor
+  · rintro ⟨r, ⟨env, ⟨env1, h1, rfl⟩, hr⟩, rfl⟩
+    exact ⟨env1, r, h1, by
+      cases he : cx.ops.eval cx.profile
+          (Env.lookup (fm.exprs.reverse ++ ((fm.consts.map fun c => (c.1, numLitExpr cx c.2)).reverse ++ env1)))
+          formula <;> simp [he, resOpt] at hr ⊢
+      exact hr, rfl⟩
+  · rintro ⟨env1, r, h1, hr, rfl⟩
+    exact ⟨r, ⟨_, ⟨env1, h1, rfl⟩, by simp [hr, resOpt]⟩, rfl⟩
+
 /-- Without any restriction on the graph: wherever the reference semantics assigns a
-value, the interpreter returns exactly it (formula nodes simply have no reference value). -/
+value, the interpreter returns exactly it. -/
 theorem spec_values_returned (cx : Ctx F E) (fuel : Nat) (n : NodeId) (st : St F) :
     (∀ v, (valSem cx (fuel + 1)).int n st.s = some v → (exec cx (fuel + 1) (.intValue n) st).1 = .ok (.int v)) ∧
     (∀ v, (valSem cx (fuel + 1)).float n st.s = some v → (exec cx (fuel + 1) (.floatValue n) st).1 = .ok (.float v)) ∧
     (∀ v, (valSem cx (fuel + 1)).str n st.s = some v → (exec cx (fuel + 1) (.strValue n) st).1 = .ok (.str v)) ∧
     (∀ v, (valSem cx (fuel + 1)).enum n st.s = some v → (exec cx (fuel + 1) (.enumCurrentValue n) st).1 = .ok (.int v)) := by
-  have ihA := specIH cx fuel
-  refine ⟨fun v h => ?_, fun v h => ?_, fun v h => ?_, fun v h => ?_⟩ <;> simp only [exec, top, runR_fst]
-  · rw [intValueF_exec ihA h]
-  · rw [floatValueF_exec ihA h]
-  · rw [strValueF_exec ihA h]
-  · rw [enumCurrentValueF_exec ihA h]
+  have r := refines_spec_formula_reads cx fuel n st
+  exact ⟨fun v h => (r.1 v).mpr h, fun v h => (r.2.1 v).mpr h, fun v h => (r.2.2.1 v).mpr h,
+    fun v h => (r.2.2.2.1 v).mpr h⟩
 
 /-- Reads never change value store or device image (they only append to the access log):
 the frame half of "final device memory equals that of the reference". -/
@@ -1268,6 +1430,117 @@ example : (exec Ex3.cx 3 (.regAddress 2) Ex3.st).1 = .ok (.int 18) ∧
     addrSum Ex3.cx (valSem Ex3.cx 2) (effectiveAddrsFor .one Ex3.rb) 0 Ex3.st.s = some 18 ∧
     addrSum Ex3.cx (valSem Ex3.cx 2) (effectiveAddrsFor .registerLength Ex3.rb) 0 Ex3.st.s = some 24 := by
   refine ⟨?_, ?_, ?_, ?_⟩ <;> rfl
+
+/-! ### Formula nodes: a concrete evaluator, graph and state for `refines_spec_formula_reads` -/
+
+namespace Ex4
+/-- a toy expression language standing in for the evaluator parameter -/
+inductive XE where
+  | lit (i : Int)
+  | var (s : String)
+  | add (a b : XE)
+
+def evalXE (env : String → Option XE) : Nat → XE → Res Err Int
+  | 0, _ => .err .outOfFuel
+  | _ + 1, .lit i => .ok i
+  | f + 1, .var s =>
+    match env s with
+    | some e => evalXE env f e
+    | none => .err .invalidNode
+  | f + 1, .add a b =>
+    match evalXE env f a, evalXE env f b with
+    | .ok x, .ok y => .ok (x + y)
+    | .ok _, e => e
+    | e, _ => e
+
+def ops : Ops Int XE where
+  i2f i := i
+  f2i f := f
+  fNonZero f := f != 0
+  fMin := 0
+  fMax := 0
+  intFromSlice bs _ _ := if bs.length = 1 then .ok (fromLE bs) else .err .invalidBuffer
+  bytesFromInt v n _ _ := if n = 1 then .ok (toLE n v.toNat) else .err .invalidBuffer
+  floatFromSlice _ _ := .err .invalidBuffer
+  bytesFromFloat _ _ _ := .err .invalidBuffer
+  strDecode b := b
+  applyMask _ _ v _ _ _ := .ok v
+  maskedValue _ _ _ v _ _ _ := .ok v
+  maskMin _ _ _ _ _ := .ok 0
+  maskMax _ _ _ _ _ := .ok 0
+  exprOfInt i := .lit i
+  exprOfFloat f := .lit f
+  eval _ env e :=
+    match evalXE env 16 e with
+    | .ok i => .ok (.int i)
+    | .err x => .err x
+    | .panic => .panic
+
+/-- 0 Integer (slot 0 = 7, Max = slot 2 = 9) · 1 Enumeration {2 "Off" ↦ 0, 3 "On" ↦ 5} over slot 3 ·
+4 IntSwissKnife without variables: constant K = 10, expressions X = K + 1 and (later, shadowing
+the constant) K = 5; formula X + K ·
+5 IntConverter over pValue 0: FormulaFrom = TO + K with constant K = 10 -/
+def graph : Graph Int XE
+  | 0 => some (.integer {} (.value 0) (.imm 1) (.imm 2) (.imm 1))
+  | 1 => some (.enumeration {} [2, 3] (.imm 3))
+  | 2 => some (.enumEntry {} 0 none "Off")
+  | 3 => some (.enumEntry {} 5 none "On")
+  | 4 => some (.intSwissKnife {} ⟨[], [("K", .int 10)], [("X", .add (.var "K") (.lit 1)), ("K", .lit 5)]⟩
+            (.add (.var "X") (.var "K")))
+  | 5 => some (.intConverter {} ⟨[], [("K", .int 10)], []⟩ (.var "FROM") (.add (.var "TO") (.var "K")) 0)
+  | 6 => some (.boolean {} (.imm 4) 1 0)
+  | 7 => some (.intConverter {} ⟨[], [], []⟩ (.var "FROM") (.var "TO") 6)
+  | 8 => some (.port {} false)
+  | 9 => some (.intReg ⟨{}, [.intSwissKnife 4], .imm 1, .rw, 8⟩ .unsigned .le)
+  | _ => none
+def cx : Ctx Int XE := ⟨ops, Profile.dev, graph⟩
+def st : St Int :=
+  ⟨[.int 7, .int 0, .int 9, .int 5, .int 0], ⟨[0, 0, 0, 0, 0, 0, 0, 0, 0, 0, 0, 42, 0, 0, 0, 0], 0, 0⟩, []⟩
+end Ex4
+
+/-- a register (node 9) whose address is the swiss knife 4 (value 11): address, raw read and
+value go through the formula node — `refines_spec_formula_rest` / `_reads` apply where
+`refines_spec_partial` does not -/
+example : (exec Ex4.cx 5 (.regAddress 9) Ex4.st).1 = .ok (.int 11) ∧ specRegAddress Ex4.cx 4 9 Ex4.st.s = some 11 ∧
+    (exec Ex4.cx 5 (.regRead 9 1) Ex4.st).1 = .ok (.bytes [42]) ∧ specRegRead Ex4.cx 4 9 1 Ex4.st.s = some [42] ∧
+    (exec Ex4.cx 5 (.intValue 9) Ex4.st).1 = .ok (.int 42) ∧ (valSem Ex4.cx 5).int 9 Ex4.st.s = some 42 := by
+  refine ⟨?_, ?_, ?_, ?_, ?_, ?_⟩ <;> rfl
+
+/-- converter writes (node 5: FormulaTo = FROM, pValue = Integer 0; node 7: pValue = Boolean 6,
+slot 4): writing 3 stores 3 in slot 0; writing 2 to the converter over the Boolean stores the
+On value 1 (2 is non-zero); writing 0 stores Off — interpreter and reference agree; the swiss
+knife has no reference write and refuses -/
+example : (exec Ex4.cx 4 (.intSet 5 3) Ex4.st).2.vs = [.int 3, .int 0, .int 9, .int 5, .int 0] ∧
+    ((setSem Ex4.cx 4).int 5 3 Ex4.st.s).map (·.vs) = some [.int 3, .int 0, .int 9, .int 5, .int 0] ∧
+    (exec Ex4.cx 4 (.intSet 7 2) Ex4.st).2.vs = [.int 7, .int 0, .int 9, .int 5, .int 1] ∧
+    ((setSem Ex4.cx 4).int 7 2 Ex4.st.s).map (·.vs) = some [.int 7, .int 0, .int 9, .int 5, .int 1] ∧
+    ((setSem Ex4.cx 4).int 7 0 Ex4.st.s).map (·.vs) = some [.int 7, .int 0, .int 9, .int 5, .int 0] ∧
+    (setSem Ex4.cx 4).int 4 1 Ex4.st.s = none ∧
+    (exec Ex4.cx 4 (.intSet 4 1) Ex4.st).1 = .err .notWritable := by
+  refine ⟨?_, ?_, ?_, ?_, ?_, ?_, ?_⟩ <;> rfl
+
+/-- the swiss knife: the later expression K = 5 shadows the constant K = 10, so X = 6 and the
+value is 11 — in the interpreter and in the reference semantics; the converter reads
+TO + K = 7 + 10; both nodes are outside `NoFormulaNodes` -/
+example : (exec Ex4.cx 3 (.intValue 4) Ex4.st).1 = .ok (.int 11) ∧
+    (valSem Ex4.cx 3).int 4 Ex4.st.s = some 11 ∧
+    (exec Ex4.cx 3 (.intValue 5) Ex4.st).1 = .ok (.int 17) ∧
+    (valSem Ex4.cx 3).int 5 Ex4.st.s = some 17 ∧
+    (valSem Ex4.cx 3).intMin 4 Ex4.st.s = some 11 ∧
+    (valSem Ex4.cx 3).intInc 5 Ex4.st.s = some none ∧
+    ¬ NoFormulaNodes Ex4.cx := by
+  refine ⟨?_, ?_, ?_, ?_, ?_, ?_, fun h => h 4⟩ <;> rfl
+/-- what the accessors of a `<pVariable>` denote on this graph (F2): the value, the current
+maximum, the NumericValue of the current entry (5 ↦ entry "On"), an entry's declared value;
+an entry that is not declared, and `.Min` of an enumeration, denote nothing -/
+example : varExpr Ex4.cx (valSem Ex4.cx 2) .value 0 Ex4.st.s = some (.lit 7) ∧
+    varExpr Ex4.cx (valSem Ex4.cx 2) .max 0 Ex4.st.s = some (.lit 9) ∧
+    varExpr Ex4.cx (valSem Ex4.cx 2) .value 1 Ex4.st.s = some (.lit 5) ∧
+    varExpr Ex4.cx (valSem Ex4.cx 2) (.enumEntry "Off") 1 Ex4.st.s = some (.lit 0) ∧
+    varExpr Ex4.cx (valSem Ex4.cx 2) (.enumEntry "Nope") 1 Ex4.st.s = none ∧
+    varExpr Ex4.cx (valSem Ex4.cx 2) .min 1 Ex4.st.s = none ∧
+    (varGetValue Ex4.cx (execRec Ex4.cx 2) .max 0 Ex4.st.s).1 = .ok (.lit 9) := by
+  refine ⟨?_, ?_, ?_, ?_, ?_, ?_, ?_⟩ <;> rfl
 
 namespace Ex2
 /-- 0: Integer over a value-store slot · 1: Integer with pValue 0, locked by 0, pMax 0, pInc 0 -/
